@@ -1,3 +1,64 @@
-From Coercion.Store Require Import Tree.
-Theorem c13_placeholder : True. Proof. exact I. Qed.
-Print Assumptions c13_placeholder.
+(* C13 - storage round trip: Read returns exactly what was last written.
+
+   The store is specified by Spec.v: an association list id -> plan; Create adds the plan unchanged or
+   fails without effect; Update* rewrites the state triple (plan: + reason; action: + attempts) of the
+   object carrying the id and nothing of the definition; Delete removes the plan; read of an id never
+   created, or deleted, is None - an error, never an empty plan (spec_read_empty / spec_read_deleted /
+   spec_read_created below).
+
+   The theorems say: for every list of operations, the model of the sqlite vault (SqliteModel.v: the
+   five tables as rows, the INSERT / SELECT / UPDATE / DELETE statements of the Go code, transactions)
+   answers every Read, and every operation's result class, exactly as the specification does.
+
+   Premises (they are what the quantifier of C13 ranges over, not assumptions about the code):
+   - the JSON codec brings back what it encoded, for requests the plugin's ValidateReq accepts (req_ok)
+     and attempts whose response has the plugin's response type (att_ok);
+   - ops_ok (SqliteRep.v): every created plan is in the domain (pln_dom: such requests and attempts;
+     instants zero or not before 1970) and its ids are pairwise distinct and not used by any stored
+     plan - what Submit guarantees (C16) - or its id is already stored (then it is rejected); every
+     Update* carries a state in the domain, UpdateAction attempts fitting the action's plugin.
+   Whether a value can be encoded at all is not a premise: an unencodable request or response makes
+   the operation fail and change nothing, in the model as in the specification. *)
+From Coercion.Base Require Import Plan.
+From Coercion.Store Require Import Tree Rows Spec SqliteModel SqliteRep SqliteRefine SqliteTheorems.
+
+Theorem c13_roundtrip_sqlite :
+  forall (enc_req : blob -> option code) (dec_req : tok -> code -> option blob)
+         (enc_att : attempt -> option code) (dec_att : tok -> code -> option attempt)
+         (req_ok : tok -> blob -> bool) (att_ok : tok -> attempt -> bool),
+    (forall t b c, req_ok t b = true -> enc_req b = Some c -> dec_req t c = Some b) ->
+    (forall t a c, att_ok t a = true -> enc_att a = Some c -> dec_att t c = Some a) ->
+    forall (ops : list op) (id : uid),
+      ops_ok enc_req enc_att req_ok att_ok [] ops ->
+      SqliteModel.read dec_req dec_att id (SqliteModel.run enc_req dec_req enc_att dec_att ops [])
+      = Spec.read id (Spec.run enc_req enc_att ops [])
+      /\ SqliteModel.results enc_req dec_req enc_att dec_att ops [] = Spec.results enc_req enc_att ops [].
+Proof. exact c13_roundtrip_sqlite_lemma. Qed.
+Print Assumptions c13_roundtrip_sqlite.
+
+(* the core lemma: on any database whose primary keys are distinct, what a successful Create
+   committed is read back whole - every definition field, the order of blocks, sequences and actions,
+   state triples, reason, submit time, attempts *)
+Theorem c13_fetch_commit :
+  forall (enc_req : blob -> option code) (dec_req : tok -> code -> option blob)
+         (enc_att : attempt -> option code) (dec_att : tok -> code -> option attempt)
+         (req_ok : tok -> blob -> bool) (att_ok : tok -> attempt -> bool),
+    (forall t b c, req_ok t b = true -> enc_req b = Some c -> dec_req t c = Some b) ->
+    (forall t a c, att_ok t a = true -> enc_att a = Some c -> dec_att t c = Some a) ->
+    forall (p : spln) (d d' : db),
+      NoDup (map key d) -> pln_dom req_ok att_ok p ->
+      SqliteModel.create enc_req enc_att p d = (d', true) ->
+      SqliteModel.read dec_req dec_att (sp_id p) d' = Some p.
+Proof. exact fetch_commit_lemma. Qed.
+Print Assumptions c13_fetch_commit.
+
+(* the specification's read: never created -> None; created -> the plan; deleted -> None *)
+Theorem c13_spec_read_never_created : forall id, Spec.read id [] = None.
+Proof. exact spec_read_empty. Qed.
+Theorem c13_spec_read_created :
+  forall enc_req enc_att p s s', Spec.create enc_req enc_att p s = (s', true) -> Spec.read (sp_id p) s' = Some p.
+Proof. exact spec_read_created. Qed.
+Theorem c13_spec_read_deleted : forall id s, Spec.read id (fst (Spec.delete id s)) = None.
+Proof. exact spec_read_deleted. Qed.
+Print Assumptions c13_spec_read_created.
+Print Assumptions c13_spec_read_deleted.
